@@ -154,7 +154,7 @@ def run(tier="quick", seed=0):
     chunks = [cases[i::procs * 4] for i in range(procs * 4)]
     chunks = [c for c in chunks if c]
     ctx = mp.get_context("fork")
-    n_plain = 24 if tier == "quick" else 96
+    n_plain = 12 if tier == "quick" else 64
     plain = cases[:: max(1, len(cases) // n_plain)][:n_plain]
     with ctx.Pool(procs) as pool:
         plain_async = pool.map_async(_nomemo_work, [[c] for c in plain], chunksize=1)
